@@ -1,6 +1,9 @@
 import AdaptiveProofs.Lemmas.SeqInv
 import AdaptiveModel.DataSaver
 import AdaptiveModel.Avg
+import AdaptiveProofs.Lemmas.L1DBook
+import AdaptiveProofs.Lemmas.AvgBook
+import AdaptiveProofs.Lemmas.SeqBook
 
 /-!
 # C13 — saving, pickling or copying a learner and restoring it loses nothing
@@ -41,5 +44,33 @@ theorem seq_roundtrip_valid (n : Nat) (ops : List (Seq.Op β)) (hv : Seq.ValidOp
     Seq.Inv (Seq.run (Seq.init n) ops) :=
   Seq.inv_run ops _ (Seq.inv_init n) hv
 end seq
+
+/-! ### round trips through `_get_data` / `_set_data` for the learner models -/
+section models
+open L1D in
+/-- Learner1D: `_set_data(_get_data())` on a fresh learner (`tell_many` of all points) reproduces `data`
+exactly — same points, same values, same order — for every reachable state. -/
+theorem l1d_data_roundtrip {α : Type} [Field α] [LinearOrder α] [IsStrictOrderedRing α]
+    (lossFn : List (Option α) → List (Option (List α)) → Loss α) (r12 : α → α)
+    (lo hi factor dxEps : α) (nn : Nat) (ops : List (Op α)) (lo' hi' factor' dxEps' : α) (nn' : Nat) :
+    let s := run lossFn r12 (init lo hi factor dxEps nn) ops
+    (setData lossFn r12 (init lo' hi' factor' dxEps' nn') (getData s)).data = s.data :=
+  setData_getData_data lossFn r12 lo' hi' factor' dxEps' nn' (inv_run lossFn r12 lo hi factor dxEps nn ops)
+
+/-- AverageLearner: the restored learner has the same data, moments, mean, standard deviation and loss. -/
+theorem avg_full_roundtrip {α : Type} [Field α] [LinearOrder α] [IsStrictOrderedRing α]
+    (sqrt : α → α) (atol rtol : Option α) (m : Nat) (ops : List (Avg.Op α)) :
+    let s := Avg.run (Avg.init atol rtol m) ops
+    let s' := Avg.setData (Avg.init atol rtol m) (Avg.getData s)
+    s'.data = s.data ∧ s'.npoints = s.npoints ∧ s'.sumF = s.sumF ∧ s'.sumFsq = s.sumFsq ∧
+    Avg.mean s' = Avg.mean s ∧ Avg.std sqrt s' = Avg.std sqrt s ∧
+    Avg.loss sqrt s' true = Avg.loss sqrt s true ∧ Avg.loss sqrt s' false = Avg.loss sqrt s true :=
+  Avg.setData_getData_init sqrt atol rtol m ops
+
+/-- SequenceLearner: the restored learner holds exactly the original's data (every op list). -/
+theorem seq_data_roundtrip {β : Type} (n m : Nat) (ops : List (Seq.Op β)) :
+    (Seq.setData (Seq.init m) (Seq.getData (Seq.run (Seq.init n) ops))).data = (Seq.run (Seq.init n) ops).data :=
+  Seq.setData_getData_run n m ops
+end models
 
 end C13
